@@ -10,7 +10,7 @@ func init() {
 		Explanation: "Panic-freedom and termination of network simplex, weighted median, the compaction algorithms, the funnel and the spline fitter quantify over run-time values; no sound bound is in reach, so the check decides necessary clauses that are visible in the shape of the code: " +
 			"ITER-1 no loop removes the element it is visiting from the adjacency/edge list it iterates (skipped edges left the graph cyclic -> 'still cyclic' panic); SHIFT-1 no unbounded shift (layer masks collapsed at 64 layers -> matrix index panic); " +
 			"ORD-4 layers stay >= 0 after normalisation (negative layers index the layer slice); REC-1 every recursive traversal has a mark-and-test guard or a reviewed termination argument; PROG-1 the flag-guarded fix-point of the default positioner repeats only after strictly increasing a coordinate; CAP-1 the two documented iteration caps exist and depend on their options; " +
-			"EFF-2 + ORD-2 self-loops are out of all three lists while the pipeline runs and back afterwards, and every phase runs on a connected component in phase order; ACYC-1 the acyclicity test that lets phase 1 return early starts a search from every node (a missed cycle makes layering and positioning recurse for ever); POST-1 the layering phase builds the layer table on every path to a normal return (later phases index it unconditionally, also for one-node components). " +
+			"EFF-2 + ORD-2 self-loops are out of all three lists while the pipeline runs and back afterwards, and every phase runs on a connected component in phase order; ACYC-1 the acyclicity test that lets phase 1 return early starts a search from every node (a missed cycle makes layering and positioning recurse for ever); POST-1 the layering phase builds the layer table on every path to a normal return (later phases index it unconditionally, also for one-node components); SPLIT-1 a component is cut from sets that hold the marks of one walk only (a component with another component's edges makes the phases index out of range). " +
 			"Not decided: explicit panic sites guarded by run-time preconditions, index/nil safety in general, termination of feasibleTree, transpose, placeBlock, the funnel loops and the predecessor walk in geom.Shortest, memory budgets.",
 		Assumptions: []string{"clauses are necessary, not sufficient, for the property", "REC-1's reviewed table (5 functions) is correct"},
 	})
@@ -95,7 +95,7 @@ func init() {
 		Tech:  "symbolic recurrence extraction (height = max(1, child + Delta), Layer = final max - height) + running-extremum lint + recursion table",
 		Rules: []string{"AFF-8", "AGG-1", "REC-1", "DISP-1", "OPTS-1"},
 		Explanation: "AFF-8: the height accumulator starts at the constant 1 and is updated as max(acc, child + Edge.Delta) over out-edges, and Node.Layer is stored as L - height with L the final value of the max-reduction over all heights (read after the traversal loop); AGG-1: no value derived from the still-growing maximum is stored during the traversal. " +
-			"AFF-8 also decides that a traversal is started from every node of the graph (a full, never-left-early loop over the node list or a same-length copy) and that only self-loops are left out of the maximum. Together these are the specification of longest-path layering; what remains is termination of the memoised traversal (REC-1 table entry: acyclicity after phase 1). DISP-1 and OPTS-1: the layerer that runs is the selected one (dispatch depends on the algorithm constant only; no other option stores a layering algorithm on the side). Not decided: that the drawn bands are these layers (C03's band clause) and the orientation it layers (C14's rules).",
+			"AFF-8 also decides that a traversal is started from every node of the graph (a full, never-left-early loop over the node list or a same-length copy) and that only self-loops are left out of the maximum. Together these are the specification of longest-path layering; what remains is termination of the memoised traversal (REC-1 table entry: acyclicity after phase 1); nothing in the layerer's caller modifies Node.Layer after it has returned. DISP-1 and OPTS-1: the layerer that runs is the selected one (dispatch depends on the algorithm constant only; no other option stores a layering algorithm on the side). Not decided: that the drawn bands are these layers (C03's band clause) and the orientation it layers (C14's rules).",
 		Assumptions: []string{"the graph is acyclic after phase 1"},
 	})
 	registerProp(&Property{
